@@ -84,12 +84,12 @@ GAddExt(ph) == JobsReady /\ \E r \in JF, e \in Exts :
 
 \* a command that mentions one of the job's own resources (makes it valid for consumers)
 GDefine == JobsReady /\ \E r \in Res :
-  /\ Src(r) # 0 /\ r \in created /\ (DefMembers \/ r.k # "gm") /\ At(7, <<Rk(r), 0>>)
+  /\ Src(r) \in Live /\ r \in created /\ (DefMembers \/ r.k # "gm") /\ At(7, <<Rk(r), 0>>)
   /\ Command(Src(r), <<[t |-> "ref", r |-> r]>>)
   /\ Log([op |-> "Command", j |-> Src(r), refs |-> <<r>>]) /\ Keep
 
 \* a command of job c that references 1..MaxRefs resources, the first of which is not its own
-RefSeqs == UNION { [1..n -> created] : n \in 1..MaxRefs }
+RefSeqs == UNION { [1..n -> { r \in created : r.j = 0 \/ r.j \in Live }] : n \in 1..MaxRefs }
 GUse == JobsReady /\ \E c \in Jobs : \E rs \in RefSeqs :
   /\ Src(rs[1]) # c /\ ncalls["use"] < MaxUses /\ ncalls["dep"] + ncalls["use"] < MaxEdges
   /\ \A i \in 2..Len(rs) : Rk(rs[i - 1]) < Rk(rs[i])
